@@ -20,6 +20,12 @@ def run_case(c):
         res["orig_read"] = X.readback(t, obj)
     except BaseException as e:  # noqa
         return {"stage": "construct", "exc": X.exc_class(e), "msg": repr(e)[:200]}
+    is_scalar_array = t["k"] == "array" and t["item"]["k"] == "scalar" and len(v["items"]) > 0
+    if is_scalar_array and c.get("view_before", True):
+        try:
+            obj.to_nplike()      # a user may have looked at the data as an array before pickling
+        except BaseException:  # noqa
+            pass
     try:
         group = [obj]
         if c.get("with_sibling"):
@@ -44,6 +50,28 @@ def run_case(c):
         res["caches"] = caches(t, p); res["orig_caches"] = caches(t, obj)
     except BaseException as e:  # noqa
         res["caches_exc"] = X.exc_class(e)
+    # the restored object is fully usable: a write through its array view is seen by every other access
+    if is_scalar_array:
+        try:
+            a = p.to_nplike()
+            flat = a.reshape(-1) if hasattr(a, "reshape") else a
+            before0 = X.readback(t, p)["items"][0]
+            newb = bytes((b + 1) & 0xFF for b in before0)
+            idx0 = tuple(0 for _ in p._shape)
+            a[idx0] = np.frombuffer(newb, dtype=a.dtype)[0]
+            after0 = X.readback(t, p)["items"][0]
+            res["write_through_view"] = {"wrote": list(newb), "item_reads": after0,
+                                         "view_item_reads": X.readback(t, T._from_buffer(p._buffer, p._offset))["items"][0]}
+        except BaseException as e:  # noqa
+            res["write_through_view_exc"] = X.exc_class(e) + ": " + repr(e)[:200]
+    # its context is a working context: new buffers, copies into it
+    try:
+        ctx2 = p._buffer.context
+        nb = ctx2.new_buffer(64)
+        q = T(p, _context=ctx2)
+        res["copy_in_restored_context"] = X.readback(t, q) == X.readback(t, p)
+    except BaseException as e:  # noqa
+        res["restored_context_exc"] = X.exc_class(e) + ": " + repr(e)[:200]
     if len(back) > 1:
         res["sibling_same_buffer"] = bool(back[1]._buffer is p._buffer)
         res["sibling_off"] = [int(back[1]._offset), int(group[1]._offset)]
